@@ -12,9 +12,24 @@ package bt
 //@   ensures[C10.upper_inc] (=> (< v 18446744073709551615) (= result (- (spec.vlen (+ v 1)) (spec.vlen v))))
 //@   ensures[C10.upper_inc_top] (=> (= v 18446744073709551615) (= result (- 1)))
 
+//@ func bt.VarInt.Bytes
+//@   fresh result
+//@   ensures[C01.varint_bytes_len] (= (len result) (spec.vlen v))
+//@   opt bytes-bound 9
+//@   opt bytes-le-defs 1
+//@   ensures[C01.varint_bytes] (= (bytes result) (spec.vi v))
+
+//@ func bt.LittleEndianBytes
+//@   bytes token
+//@   opt bytes-le-defs 1
+//@   requires (>= l 4)
+//@   fresh result
+//@   ensures[C01.le_bytes] (and (= (len result) l) (= (bytes result) (bcat (le32 v) (bzeros (- l 4)))))
+
 //@ func bt.ReverseBytes
 //@   bytes array
 //@   fresh result
+//@   define (= (bytes result) (brev (bytes a)))
 //@   ensures[C01.rev_len] (= (len result) (len a))
 //@   ensures[C01.rev_content] (forall ((k Int)) (=> (and (<= 0 k) (< k (len a))) (= (at result k) (old (at a (- (- (len a) 1) k))))))
 //@   ensures[C01.rev_input_unchanged] (forall ((k Int)) (=> (and (<= 0 k) (< k (len a))) (= (at a k) (old (at a k)))))
@@ -357,3 +372,28 @@ package bt
 //@   requires (=> (not (nil? fees)) (spec.wf_quote fees))
 //@   requires (< (spec.sum_in tx) 18446744073709551616) (< (spec.sum_out tx) 18446744073709551616) (<= 0 (spec.sum_in tx)) (<= 0 (spec.sum_out tx))
 //@   ensures[C12.deficit] (=> (= err nil) (= r0 (ite (> (old (spec.sum_in tx)) (+ (old (spec.sum_out tx)) (spec.quoted fees (old (spec.est_std tx)) (old (spec.est_data tx))))) 0 (- (+ (old (spec.sum_out tx)) (spec.quoted fees (old (spec.est_std tx)) (old (spec.est_data tx)))) (old (spec.sum_in tx))))))
+
+// ---- wire serialisation (C01) ----
+//@ func bt.(*Input).Bytes
+//@   bytes token
+//@   fresh result
+//@   ensures[C01.input_bytes] (= (bytes result) (old (spec.in_bytes i clear)))
+//@ func bt.(*Output).Bytes
+//@   bytes token
+//@   requires (not (nil? (. o LockingScript)))
+//@   fresh result
+//@   ensures[C01.output_bytes] (= (bytes result) (old (spec.out_bytes o)))
+//@ func bt.(*Output).BytesForSigHash
+//@   bytes token
+//@   requires (not (nil? (. o LockingScript)))
+//@   fresh result
+//@   ensures[C02.output_sighash_bytes] (= (bytes result) (old (spec.out_bytes o)))
+//@ func bt.(*Tx).toBytesHelper
+//@   bytes token
+//@   requires (spec.out_scripts_nonnil tx) (spec.inputs_nonnil tx)
+//@   fresh result
+//@   ensures[C01.tx_bytes] (= (bytes result) (old (spec.tx_ser tx index lockingScript extended)))
+//@   loop 0 invariant (fresh h)
+//@   loop 1 invariant (fresh h)
+//@   loop 0 invariant (= (bytes h) (bcat (le32 (old (. tx Version))) (bcat (ite extended (spec.ext_marker) beps) (bcat (spec.vi (old (len (. tx Inputs)))) (old (spec.ser_ins tx index lockingScript extended (+ rangeindex 1)))))))
+//@   loop 1 invariant (= (bytes h) (bcat (le32 (old (. tx Version))) (bcat (ite extended (spec.ext_marker) beps) (bcat (spec.vi (old (len (. tx Inputs)))) (bcat (old (spec.ser_ins tx index lockingScript extended (len (. tx Inputs)))) (bcat (spec.vi (old (len (. tx Outputs)))) (old (spec.ser_outs tx (+ rangeindex 1)))))))))
